@@ -23,7 +23,9 @@ RULE = ("case = one generated op history of kind delay|periodic|timer; distinct 
         "cancel-type op (remove/replace/clear/run_now/stop/pause/cancel) was exercised")
 ASSUMPTIONS = [
     "virtual-time tolerance 1e-6 s; a delay whose deadline is within tolerance of 'now' may be pending or fired",
-    "delays are only added to a mode's DelayManager while that mode is active (statement silent otherwise)",
+    "delays are only added to a mode's DelayManager while that mode is active and not stopping (statement silent otherwise)",
+    "a mode's stop may be held open by a handler of mode_<m>_stopping (0-3 virtual s): the mode's delays count as "
+    "cancelled from the accepted stop request on",
     "timer device: after jump/set_tick_interval/change_tick_interval while running the phase of the next tick is "
     "unspecified; the model accepts the next tick anywhere in (t_op, t_op+interval] and re-anchors on it",
     "timer device tick events that repeat the current value (posted synchronously by start/restart) are not clock ticks",
@@ -85,7 +87,9 @@ def _gen_delay(rng, tier):
             ops.append(["mode_start"])
         else:
             ops.append(["adv", rng.choice([0, 1, 9, 10, 90, 99, 100, 101, 150, 250, 900, 1000, 1001, 2500, 3000])])
-    return {"kind": "delay", "ops": ops}
+    # a handler may hold the mode's "stopping" queue event: the stop then spans virtual time and the mode's delays
+    # that fall due inside that window must still never fire
+    return {"kind": "delay", "ops": ops, "stop_hold_ms": rng.choice([0, 0, 150, 1200, 3000])}
 
 
 def _gen_periodic(rng, tier):
@@ -189,6 +193,13 @@ def _run_delay(case):
         mode = m.modes["m1"]
         mode.start()
         vm.advance(0)
+        hold = case.get("stop_hold_ms", 0)
+        if hold:
+            def _hold_stopping(queue, **kwargs):
+                queue.wait()
+                obs["held_mode_stops"] = obs.get("held_mode_stops", 0) + 1
+                vm.loop.call_later(hold / 1000.0, queue.clear)
+            m.events.add_handler("mode_m1_stopping", _hold_stopping)
         mgr = {"machine": m.delay, "own": DelayManager(m), "mode": mode.delay}
         model = {k: {} for k in mgr}      # name -> entry
         cancelled = set()                 # opids that must never fire any more
@@ -355,7 +366,8 @@ def _run_delay(case):
                     if not state["mode_active"]:
                         mode.start()
                         vm.advance(0)
-                        state["mode_active"] = mode.active
+                        # a start while the (held) stop is still in progress is refused by the mode
+                        state["mode_active"] = bool(mode.active and not mode.stopping)
                         mgr["mode"] = mode.delay
                 else:
                     shape.append(kind[0] + (_bucket(op[3]) if kind in ("add", "add_if", "reset") else "") +
